@@ -45,6 +45,10 @@ def main():
     if spec.get('host_path_empty_entry'):
         # like an interactive session, `python -c` or an embedding host: '' is on sys.path
         sys.path.insert(1, '')
+    if spec.get('host_path_project_entry'):
+        # the program that uses jedi lives in the analysed tree (python proj/tool.py, python -m tool, an
+        # editor plug-in that put the checkout on its path): the HOST's sys.path holds the project directory
+        sys.path.insert(0, world)
     gc_auto = spec.get('gc_auto', False)
     if not gc_auto:
         gc.disable()
@@ -305,7 +309,12 @@ class Subject:
                 kw['sys_path'] = [self.expand(x) for x in p['sys_path']]
             if 'added_sys_path' in p:
                 kw['added_sys_path'] = [self.expand(x) for x in p['added_sys_path']]
-            self.projects[key] = self.jedi.Project(self.expand(p.get('path', '.')), **kw)
+            root_arg = self.expand(p.get('path', '.'))
+            if p.get('pathlib_rel'):
+                # what a caller writes as Project(Path('.')) / Project(Path('sub')): a RELATIVE pathlib.Path
+                import pathlib
+                root_arg = pathlib.Path(os.path.relpath(root_arg, os.getcwd()))
+            self.projects[key] = self.jedi.Project(root_arg, **kw)
         return self.projects[key]
 
     def expand(self, x):
